@@ -10,7 +10,7 @@ from .common import Corr, hex2f
 from .c01 import make_target
 
 ID = "C02"
-LEAN_MODULES = ["TempestVerif.Props.C02"]
+LEAN_MODULES = ["TempestVerif.Props.C02", "TempestVerif.Props.C03"]   # C03: the kernel the pipeline takes from the tape
 RULE = ("(a) evidence trace replay: real runs driven to termination with all randomness observed; the Lean pipeline model replays the "
         "tape and must reproduce every per-iteration logZ and the FINAL evidence (the beta = 1 mixture estimate over the whole history) "
         "within 1e-9; the real epilogue value (compute_logw_and_logz(1.0)) is what evidence() reports. (b) seed sensitivity predicted "
@@ -36,7 +36,7 @@ def correspond(tier):
     drv = common.Driver()
     rng = common.rng_for("C02")
     c = Corr("evidence-trace-replay", "toleranced Float")
-    n_runs = 6 if tier == "quick" else 60
+    n_runs = 16 if tier == "quick" else 100
     recs, lines = [], []
     for i in range(n_runs):
         kernel, resample = [("tpcn", "mult"), ("rwm", "syst"), ("tpcn", "syst"), ("rwm", "mult")][i % 4]
@@ -87,7 +87,8 @@ def correspond(tier):
             c2.disagree(input={"clustering": clustering, "kernel": kernel, "seeds": [11, 12, 13]}, impl=vals,
                         model="runs from different seeds use different innovations (C09_no_reseed_injective)")
         c2.sample({"clustering": clustering, "kernel": kernel, "logZ by seed": vals})
-    return [c, c2]
+    from .c01 import _dependency_suites
+    return [c, c2] + _dependency_suites(tier)
 
 
 def search(tier, hints):
